@@ -42,7 +42,7 @@ def run(ctx, P):
     n, tf = P["n"], P["tf"]
     name, kw = P["ind"]
     _, _, Candle, _, Hexital = lib()
-    cs = mk_candles(ctx, n)
+    cs = mk_candles(ctx, n, zero_ok=True)     # the HA formulas have no division: prices of exactly 0 are inside the domain
     if tf:
         ts = [ctx.sec_of(c.timestamp) for c in cs]
         raw = [dict(ts=b["ts"], open=b["open"], high=b["high"], low=b["low"], close=b["close"], volume=b["volume"]) for b in ref_resample(ctx, cs, ts, tf_secs(tf))]
